@@ -38,7 +38,8 @@ type Server struct {
 	NetInterface string
 	Port         int
 
-	rateLimiters map[string]*rate.Limiter
+	rateLimiters   map[string]*rate.Limiter
+	rateLimitersMu sync.Mutex // guards rateLimiters, which every accepted connection's goroutine reads and writes
 
 	handlers map[TranType]HandlerFunc
 
@@ -240,11 +241,13 @@ func (s *Server) Serve(ctx context.Context, ln net.Listener) error {
 				defer conn.Close()
 
 				// Check if we have an existing rate limit for the IP and create one if we do not.
+				s.rateLimitersMu.Lock()
 				rl, ok := s.rateLimiters[ipAddr]
 				if !ok {
 					rl = rate.NewLimiter(perIPRateLimit, 1)
 					s.rateLimiters[ipAddr] = rl
 				}
+				s.rateLimitersMu.Unlock()
 
 				// Check if the rate limit is exceeded and close the connection if so.
 				if !rl.Allow() {
